@@ -121,7 +121,7 @@ let explore c nw maxsends sizes kinds maxstates errs =
   let key s b = state_s s ^ "#" ^ si b in
   Hashtbl.add seen (key s0 maxsends) (); Queue.add (s0, maxsends, []) q;
   let trans = ref 0 and bad = ref 0 and kf = ref 0 and quies = ref 0 and trunc = ref false
-  and wit = ref "" and kwit = ref "" and invbad = ref 0 and iwit = ref "" in
+  and wit = ref "" and kwit = ref "" and invbad = ref 0 and iwit = ref "" and twit = ref "" in
   while not (Queue.is_empty q) do
     let (s, b, path) = Queue.pop q in
     if not (inv_ok c s) then begin
@@ -129,7 +129,9 @@ let explore c nw maxsends sizes kinds maxstates errs =
     if quiescent s then begin
       incr quies;
       if not (c05_ok s) then begin
-        if in_kf_class s then (incr kf; if !kwit = "" then kwit := String.concat " " (List.rev path))
+        if in_kf_class s then (incr kf;
+          if s.taint && !twit = "" then twit := String.concat " " (List.rev path) ^ " => " ^ state_s s;
+          if !kwit = "" then kwit := String.concat " " (List.rev path))
         else (incr bad; if !wit = "" then wit := String.concat " " (List.rev path) ^ " => " ^ state_s s)
       end
     end;
@@ -147,7 +149,7 @@ let explore c nw maxsends sizes kinds maxstates errs =
   done;
   Printf.sprintf "states=%d transitions=%d quiescent=%d bad=%d kf=%d invbad=%d truncated=%s%s%s%s" (Hashtbl.length seen) !trans !quies
     !bad !kf !invbad (b01 !trunc) (if !wit = "" then "" else " witness=" ^ !wit) (if !kwit = "" then "" else " kfwitness=" ^ !kwit)
-    (if !iwit = "" then "" else " invwitness=" ^ !iwit)
+    (if !iwit = "" then "" else " invwitness=" ^ !iwit) ^ (if !twit = "" then "" else " taintwitness=" ^ !twit)
 
 (* ---- alignment of a real trace -------------------------------------------------
    trace LOOKAHEAD SB HW POLL2 NW MODE EV ...
@@ -183,6 +185,9 @@ let sres_of (a : string) : sres =
 exception Mismatch of string
 
 let trace c nw mode (evs : string list) : string =
+  let dump = String.length mode > 5 && String.sub mode (String.length mode - 5) 5 = "+dump" in
+  let mode = if dump then String.sub mode 0 (String.length mode - 5) else mode in
+  let fired_choices = ref [] in
   let attrs = (mode = "attrs") in
   let evs = Array.of_list (List.map (fun t ->
     match String.split_on_char ';' t with
@@ -200,7 +205,7 @@ let trace c nw mode (evs : string list) : string =
     | _ -> ()) evs;
   let st = ref (init (nat_of_int nw)) in
   let pending : (string, (string list * choice * (unit -> unit))) Hashtbl.t = Hashtbl.create 8 in
-  let fired = ref 0 and compared = ref 0 in
+  let fired = ref 0 and compared = ref 0 and invbad = ref 0 and invchecked = ref 0 in
   let tid_of th = if th = "io" then None else Some (int_of_string (String.sub th 1 (String.length th - 1))) in
   let peek th kind = let q = qget th kind in if Queue.is_empty q then None else Some (Queue.peek q) in
   let pop th kind = ignore (Queue.pop (qget th kind)) in
@@ -247,7 +252,7 @@ let trace c nw mode (evs : string list) : string =
      | Some (s', ls) ->
        if visible ls <> labs then raise (Mismatch (Printf.sprintf "th=%s labels changed before the step fired: %s -> %s"
                                                     th (String.concat "," labs) (String.concat "," (visible ls))));
-       st := s'; popf (); incr fired
+       st := s'; popf (); incr fired; fired_choices := choice_s ch :: !fired_choices
      | None -> raise (Mismatch (Printf.sprintf "th=%s step %s no longer enabled when its last label arrived" th (choice_s ch)))) in
   let rec greedy th =
     match next_choice th with
@@ -266,7 +271,8 @@ let trace c nw mode (evs : string list) : string =
         if th = "c" && lab = "Begin" then ()
         else if th = "c" then begin
           let ch = if lab = "ClientClose" then CClientClose else CClient (items_of arg) in
-          (match step c !st ch with Some (s', _) -> st := s'; incr fired | None -> raise (Mismatch "client step refused"))
+          (match step c !st ch with Some (s', _) -> st := s'; incr fired; fired_choices := choice_s ch :: !fired_choices
+                                  | None -> raise (Mismatch "client step refused"))
         end
         else if lab = "Begin" then greedy th
         else if lab = "Keep" then ()
@@ -294,6 +300,8 @@ let trace c nw mode (evs : string list) : string =
                       else Hashtbl.replace pending th (rest, ch, popf)))))
         end
       with Mismatch m -> raise (Mismatch (Printf.sprintf "ev=%d %s;%s;%s %s || %s" k th lab arg m (state_s !st))));
+      if Hashtbl.length pending = 0 then begin
+        incr invchecked; if not (inv_ok c !st) then incr invbad end;
       if snap <> "-" && Hashtbl.length pending = 0 then begin
         incr compared;
         let m = snap_model () in
@@ -301,9 +309,10 @@ let trace c nw mode (evs : string list) : string =
         if not (eqf (String.split_on_char ',' m) (String.split_on_char ',' snap)) then raise (Mismatch (Printf.sprintf "ev=%d %s;%s state differs: model=%s real=%s || %s" k th lab m snap (state_s !st)))
       end) evs;
     let s = !st in
-    Printf.sprintf "OK fired=%d compared=%d quiescent=%s c05=%s kf=%s pending=%d io=%s ws=%s" !fired !compared
-      (b01 (quiescent s)) (b01 (c05_ok s)) (b01 (in_kf_class s)) (Hashtbl.length pending) (io_s s.io)
+    Printf.sprintf "OK fired=%d compared=%d quiescent=%s parked=%s c05=%s kf=%s taint=%s invchecked=%d invbad=%d pending=%d io=%s ws=%s" !fired !compared
+      (b01 (quiescent s)) (b01 (quiescent_parked s)) (b01 (c05_ok s)) (b01 (in_kf_class s)) (b01 s.taint) !invchecked !invbad (Hashtbl.length pending) (io_s s.io)
       (String.concat "," (List.map w_s s.ws))
+    ^ (if dump then " choices=" ^ String.concat "," (List.rev !fired_choices) else "")
   with Mismatch m -> "MISMATCH " ^ m
 
 let cfg_of l s h p =
